@@ -40,6 +40,9 @@ BACKEND = dict(
         dict(py="update_default_dict_from_arguments", inout=["default_dict"]),
         dict(py="parse_arguments", returns_fresh=True),
         dict(py="_update_dict_delta", returns_fresh=True),
+        dict(py="call_funct", inout=["input_dict"], returns_apply="funct",
+             skip=["if funct is None:\n\n    def funct(*args, **kwargs):\n        return args[0].__call__(*args[1:], **kwargs)"],
+             opaque={"inspect.getfullargspec(input_dict['fn']).args": "funct_args"}),
     ])
 
 SHARED_PATH = dict(
@@ -62,4 +65,24 @@ CACHE_CMD = dict(
                      "get_command_path(executable='cache_serial.py')": "path_serial"}),
     ])
 
-TARGETS = [SPAWNER, COMMUNICATION, BACKEND, SHARED_PATH, CACHE_CMD]
+INPUTCHECK = dict(
+    out="InputCheck", file="executorlib/standalone/inputcheck.py",
+    funcs=[
+        dict(py="check_oversubscribe"),
+        dict(py="check_command_line_argument_lst"),
+        dict(py="check_gpus_per_worker"),
+        dict(py="check_executor"),
+        dict(py="check_nested_flux_executor"),
+        dict(py="check_resource_dict_is_empty"),
+        dict(py="check_refresh_rate", opaque={"refresh_rate != 0.01": "refresh_rate_is_not_default"}),
+        dict(py="check_plot_dependency_graph"),
+        dict(py="check_pmi"),
+        dict(py="check_init_function"),
+        dict(py="check_max_workers_and_cores"),
+        dict(py="check_hostname_localhost"),
+        dict(py="check_flux_executor_pmi_mode"),
+        dict(py="check_pysqa_config_directory"),
+        dict(py="validate_number_of_cores", opaque={"multiprocessing.cpu_count()": "cpu_count"}),
+    ])
+
+TARGETS = [INPUTCHECK, SPAWNER, COMMUNICATION, BACKEND, SHARED_PATH, CACHE_CMD]
